@@ -333,7 +333,7 @@ func c20Ops(ch *c20Chain) []c20Op {
 		ops = append(ops, c20Op{M: "block_results", H: h})
 	}
 	for h := int64(0); h <= ch.tip; h++ {
-		for _, sk := range [][2]string{{"main", "a"}, {"main", "b"}, {"main", "nokey"}, {"aux", "version"}, {"aux", "nokey"}} {
+		for _, sk := range [][2]string{{"main", "a"}, {"main", "b"}, {"main", "nokey"}, {"main", "version"}, {"aux", "version"}, {"aux", "nokey"}} { // main/version: absent here, present in the other store
 			ops = append(ops, c20Op{M: "abci_query", H: h, Store: sk[0], Key: sk[1]})
 			if sk[1] == "nokey" {
 				ops = append(ops, c20Op{M: "abci_query", H: h, Store: sk[0], Key: sk[1], AbsPath: true})
@@ -384,7 +384,7 @@ func TestVerifC20Relay(t *testing.T) {
 		"really changed a response the client consumed"
 	r.Assume("the light client has one honest witness (same chain, never falsified); the lying server cannot forge validator signatures")
 	r.Assume("block times lie hours inside the trusting period and hours before now: no verdict depends on the wall clock")
-	r.Assume("application proofs: two-level merkle.ValueOp store plus a harness absence op registered through Client.RegisterOpDecoder")
+	r.Assume("application proofs: two-level merkle.ValueOp store plus a harness absence op registered through Client.RegisterOpDecoder; a key-less step operator type is registered too and used only by the lying server")
 
 	e, err := newC20Env()
 	if err != nil {
